@@ -66,6 +66,19 @@ def definedness(ctx, functions, te, rule="C03.defined"):
                     elif isinstance(a, ast.Subscript) and isinstance(a.value, ast.Name) and a.value.id == name:
                         parts.append(ast.unparse(a.slice))
                         sinks.append(st)
+            # a unit clause over the variable itself, prepended as a literal clause list: CNF([[v], ...]) / CNF([[~v], ...])
+            for st in statements(f.node):
+                if isinstance(st, ast.Expr) and isinstance(st.value, ast.Call) and call_attr(st.value) == "prepend" and st.value.args:
+                    a0 = st.value.args[0]
+                    if isinstance(a0, ast.Call) and dotted(a0.func) == "CNF" and a0.args and isinstance(a0.args[0], ast.List):
+                        for cl in a0.args[0].elts:
+                            if isinstance(cl, ast.List) and len(cl.elts) == 1:
+                                lit = cl.elts[0]
+                                if isinstance(lit, ast.UnaryOp) and isinstance(lit.op, ast.Invert):
+                                    lit = lit.operand
+                                if isinstance(lit, ast.Name) and lit.id == name and st not in sinks:
+                                    parts.append("all")
+                                    sinks.append(st)
             # unit comprehension over zip(name, ...) that is prepended as unit clauses
             for st in statements(f.node):
                 if isinstance(st, ast.Assign) and isinstance(st.value, ast.ListComp) and len(st.value.generators) == 1:
